@@ -4,6 +4,7 @@
 use crate::report::*;
 use crate::seqx;
 use crate::gsweep;
+use crate::csweep;
 use crate::seqx::Out;
 use serde_json::{json, Value};
 
@@ -124,6 +125,38 @@ pub fn plan(prop: &str, tier: &str) -> Option<Plan> {
                 assumptions: common_assumptions,
             })
         }
+        "C11" | "C12" => {
+            let flavours: &[&str] = if prop == "C11" { &DIRECTED } else { &ALL };
+            // (n, max_l, shards)
+            let bounds: Vec<(usize, usize, usize)> = match (prop, tier) {
+                ("C11", "quick") => vec![(2, 4, 1), (3, 4, 4), (4, 3, 4)],
+                ("C11", _) => vec![(2, 5, 1), (3, 5, 8), (4, 5, 16)],
+                ("C12", "quick") => vec![(2, 4, 1), (3, 3, 4)],
+                (_, _) => vec![(2, 5, 1), (3, 5, 16), (4, 4, 16)],
+            };
+            let mut jobs = Vec::new();
+            for f in flavours {
+                for (n, l, sh) in &bounds {
+                    jobs.extend(sharded(prop, "csweep", f, tier, json!({"n": n, "max_l": l}), *sh));
+                }
+            }
+            Some(Plan {
+                jobs,
+                level: "exploration".into(),
+                rule: if prop == "C11" {
+                    "every canonical directed adjacency shape with all nodes members x two insertion orders x every container iteration order (first hash seed producing each of the n! orders, via the seed hook): scc() must be a partition of the members equal to the reference mutual-reachability classes. nontrivial = cases with >= 2 edges".into()
+                } else {
+                    "every canonical adjacency shape of each container type x two insertion orders x every container iteration order x {JSON, CBOR}: serialise with the real code, deserialise into a graph with a different hash seed, compare keys, node values, per-node outgoing edge lists (directed: order too; undirected: multiset) and the mirror/symmetry invariant of the result. nontrivial = cases with >= 1 edge".into()
+                },
+                bounds: json!({"(nodes, max_edges, shards)": bounds}),
+                exhaustive: true,
+                assumptions: {
+                    let mut a = common_assumptions;
+                    a.push("container iteration orders are enumerated exhaustively only up to 4 keys (seed table); graphs are closed (every neighbour is a member)".into());
+                    a
+                },
+            })
+        }
         _ => None,
     }
 }
@@ -132,6 +165,7 @@ pub fn work(job: &Job, out: &mut Out) {
     match job.engine.as_str() {
         "seqx" => crate::with_flavor!(job.flavour.as_str(), F => seqx::explore::<F>(job, out)),
         "gsweep" => crate::with_flavor!(job.flavour.as_str(), F => gsweep::sweep::<F>(job, out)),
+        "csweep" => crate::with_flavor!(job.flavour.as_str(), F => csweep::sweep::<F>(job, out)),
         other => panic!("GDSL_MC_HARNESS: unknown engine {}", other),
     }
 }
@@ -140,6 +174,7 @@ pub fn replay(property: &str, engine: &str, flavour: &str, case: &Value) -> Vec<
     match engine {
         "seqx" => crate::with_flavor!(flavour, F => seqx::replay::<F>(property, case)),
         "gsweep" => crate::with_flavor!(flavour, F => gsweep::replay::<F>(property, case)),
+        "csweep" => crate::with_flavor!(flavour, F => csweep::replay::<F>(property, case)),
         other => panic!("GDSL_MC_HARNESS: unknown engine {}", other),
     }
 }
